@@ -4,6 +4,7 @@ use crate::bddx::*;
 use crate::fam::*;
 use crate::oracle::*;
 use crate::report::*;
+use crate::src_adf::Source;
 use crate::store::*;
 use adf_bdd::datatypes::Term;
 use adf_bdd::obdd::Bdd;
@@ -104,12 +105,69 @@ fn explorations(run: &Run, flags: Flags) {
     }
 }
 
+/// the statement of C06 applied to the conditions of an ADF: two statements hold the same handle exactly when their
+/// written conditions denote the same function, and a condition holds a constant handle exactly when it is valid /
+/// unsatisfiable (native and bridged construction)
+pub fn adf_handles_case(text: &str, tts: &[TT], labels: &[String]) -> Vec<(String, String)> {
+    let mut out = vec![];
+    let parser = adf_bdd::parser::AdfParser::default();
+    if parser.parse()(text).is_err() {
+        return vec![("parse".into(), "well-formed input rejected".into())];
+    }
+    let n = tts.len();
+    for bridged in [false, true] {
+        let what = if bridged { "bridged" } else { "native" };
+        let adf = match guard(|| if bridged { adf_bdd::adf::Adf::from_biodivine(&adf_bdd::adfbiodivine::Adf::from_parser(&parser)) } else { adf_bdd::adf::Adf::from_parser(&parser) }) {
+            Ok(a) => a,
+            Err(m) => {
+                out.push((format!("adf-handles:{}:panic", what), m));
+                continue;
+            }
+        };
+        if adf.ac.len() != n {
+            out.push((format!("adf-handles:{}:count", what), format!("{} conditions for {} statements", adf.ac.len(), n)));
+            continue;
+        }
+        for i in 0..n {
+            let (valid, unsat) = (tts[i] == full(n), tts[i] == 0);
+            if (adf.ac[i] == Term::TOP) != valid || (adf.ac[i] == Term::BOT) != unsat {
+                out.push((format!("adf-handles:{}:constant", what), format!("the condition of {:?} is {} but holds handle {}", labels[i], if valid { "valid" } else if unsat { "unsatisfiable" } else { "neither valid nor unsatisfiable" }, adf.ac[i])));
+            }
+            for j in 0..i {
+                if (adf.ac[i] == adf.ac[j]) != (tts[i] == tts[j]) {
+                    out.push((format!("adf-handles:{}:sharing", what), format!("the conditions of {:?} and {:?} denote {} functions but hold the handles {} and {}", labels[i], labels[j], if tts[i] == tts[j] { "the same" } else { "different" }, adf.ac[i], adf.ac[j])));
+                }
+            }
+        }
+    }
+    out
+}
+
 pub fn run_c06(run: &Run) {
     run.set_rule("explicit-state breadth-first search over the real store: state = Bdd reached by an operation history (restored by replay), alphabet = variable(v), not(h), and/or/imp/iff/xor(h,h'), restrict(h,v,b) over ALL handles of the state plus re-import through the node list and through serde+fix_import; states deduplicated on the node table. In every state: node 0/1 are the constants, every node reduced, ordered, unique (I1) and all handles denote pairwise different functions (I2, by truth tables read from the public node table); results of operations are the unique handle of their function; re-imports reproduce the node table. Start states: the empty store and the stores built for every ADF of A(2) and F(3,1), native and bridged. Non-trivial: states other than the start state.");
     run.assume("<= 3 variables at depth 4-5 (quick) / <= 4 variables (thorough); merging states with equal node tables is justified by the memo invariant checked in C11 on every transition");
     let flags = Flags { canonical: true, functions: false, memo: false, queries: false };
     explorations(run, flags);
     scale_sections(run, false);
+    // the conditions of ADFs written in unusual ways (labels that read like formulas, literally written conditions)
+    for src in [Source::Spelled, Source::Literal3, Source::FamAllWriters(fam_a(2))] {
+        let res = run.par_family(
+            &format!("conditions of {}: same handle exactly when same function (native and bridged)", src.name()),
+            src.size(),
+            || 0u64,
+            |st, k| {
+                let c = src.get(k);
+                *st += 2;
+                for (kind, msg) in adf_handles_case(&c.text, &c.tts, &c.labels) {
+                    run.violation(&kind, format!("{} on {}", msg, c.text), json!({"type": "adf-handles", "text": c.text, "tts": c.tts, "labels": c.labels}));
+                }
+            },
+            &|k| src.describe(k),
+        );
+        for st in res {
+            run.add_counts(st / 2, st, st, 0);
+        }
+    }
     // once more with a logger that accepts TRACE records
     {
         crate::report::trace_logging(true);
@@ -422,6 +480,11 @@ fn scale_sections(run: &Run, c07: bool) {
 pub fn replay(prop: &str, c: &Value) -> Vec<(String, String)> {
     match c["type"].as_str().unwrap_or("") {
         "reimport-restrict" => return reimport_restrict_case(c["tt"].as_u64().unwrap_or(0) as TT, c["vars"].as_u64().unwrap_or(3) as usize, c["writer"].as_u64().unwrap_or(0) as usize),
+        "adf-handles" => {
+            let tts: Vec<TT> = c["tts"].as_array().map(|a| a.iter().map(|x| x.as_u64().unwrap_or(0) as TT).collect()).unwrap_or_default();
+            let labels: Vec<String> = c["labels"].as_array().map(|a| a.iter().map(|x| x.as_str().unwrap_or("").to_string()).collect()).unwrap_or_default();
+            return adf_handles_case(c["text"].as_str().unwrap_or(""), &tts, &labels);
+        }
         "deep" => return deep_case(c["vars"].as_u64().unwrap_or(8) as usize, c["index"].as_u64().unwrap_or(0)),
         "wide" => return wide_store_case(c["pairs"].as_u64().unwrap_or(70000) as usize),
         "bridge-scale" => {
